@@ -88,6 +88,7 @@ struct Plan
     std::atomic<long> size { -1 };
     std::string seen;
     std::vector<std::string> qheaders; // mode Q: names of the typed headers the request was built with
+    std::atomic<int> vseen { 0 };      // mode V: requests the handler has been given
 };
 static Plan* g_plan = nullptr;
 
@@ -100,6 +101,7 @@ public:
         Plan& p = *g_plan;
         if (p.mode == "V")
         {
+            ++p.vseen;
             if (req.resource() == "/big")
                 response.send(Http::Code::Ok, std::string(static_cast<size_t>(p.code) << 20, 'B'));
             else if (req.resource() == "/file")
@@ -324,11 +326,20 @@ static std::string handle(const std::string& line)
         if (::connect(c, reinterpret_cast<sockaddr*>(&sa), sizeof sa) != 0)
             return "BADCASE connect";
         int gap = atoi(t[3].c_str());
+        // each request is sent once the handler has been given the one before (two requests in one read are not both served:
+        // pistache has no pipelining) - they are still all answered while the client reads nothing
+        auto wait_seen = [&](int n) {
+            for (int k = 0; k < 2000 && plan.vseen.load() < n; ++k)
+                std::this_thread::sleep_for(std::chrono::milliseconds(5));
+        };
         pv::send_all(c, "GET /big HTTP/1.1\r\nHost: x\r\n\r\n");
+        wait_seen(1);
         std::this_thread::sleep_for(std::chrono::milliseconds(gap));
         pv::send_all(c, "GET /file HTTP/1.1\r\nHost: x\r\n\r\n");
+        wait_seen(2);
         std::this_thread::sleep_for(std::chrono::milliseconds(60));
         pv::send_all(c, "GET /t1 HTTP/1.1\r\nHost: x\r\n\r\n");
+        wait_seen(3);
         std::this_thread::sleep_for(std::chrono::milliseconds(60));
         // now read: three responses, one after the other
         std::string all;
@@ -348,7 +359,7 @@ static std::string handle(const std::string& line)
                     return true;
                 return b.size() >= he + 4 + static_cast<size_t>(atoll(b.c_str() + cl + 16));
             };
-            if (!pv::read_until(c, all, complete, 8000))
+            if (!pv::read_until(c, all, complete, 20000))
                 break;
             auto he = all.find("\r\n\r\n", pos);
             auto cl = all.find("Content-Length: ", pos);
